@@ -5,6 +5,7 @@ package harness
 
 import (
 	"encoding/binary"
+	"encoding/hex"
 	"encoding/json"
 	"fmt"
 	"hash/fnv"
@@ -652,4 +653,24 @@ func HexTrunc(b []byte, n int) string {
 		out = append(out, []byte(fmt.Sprintf("...(%d bytes)", len(b)))...)
 	}
 	return string(out)
+}
+
+// HexBytes is a byte slice that is written as a hex string in JSON (replay files stay readable).
+type HexBytes []byte
+
+func (h HexBytes) MarshalJSON() ([]byte, error) {
+	return json.Marshal(fmt.Sprintf("%x", []byte(h)))
+}
+
+func (h *HexBytes) UnmarshalJSON(b []byte) error {
+	var s string
+	if err := json.Unmarshal(b, &s); err != nil {
+		return err
+	}
+	out, err := hex.DecodeString(s)
+	if err != nil {
+		return err
+	}
+	*h = out
+	return nil
 }
